@@ -82,7 +82,7 @@ PROPS = {
             "Astral.C03.sunBundle_on_date", "Astral.C03.moonWrapper_on_date",
             "Astral.C03.moonrise_on_date", "Astral.C03.moonset_on_date",
         ],
-        "groups": [G("corr_loc", "location", 800, 15000), G("corr_norm", "norm", 1500, 30000), G("corr_sun", "sun_events", 2500, 60000), G("corr_sun", "sun_periods", 1500, 40000),
+        "groups": [G("corr_loc", "location", 2500, 15000), G("corr_norm", "norm", 1500, 30000), G("corr_sun", "sun_events", 2500, 60000), G("corr_sun", "sun_periods", 1500, 40000),
                    G("corr_moon", "moon_riseset", 1200, 30000)],
         "unproved": [],
         "assumes": ["astimezone near year 1/9999 (OverflowError) is outside the modelled range"],
@@ -103,7 +103,7 @@ PROPS = {
             "Astral.C07.octantIndex_traditional", "Astral.C07.rahukaalam_spec",
             "Astral.C07.octant_close",
         ],
-        "groups": [G("corr_loc", "location", 800, 15000), G("corr_norm", "norm", 1500, 40000), G("corr_sun", "sun_periods", 3000, 80000), G("corr_sun", "sun_events", 1500, 30000)],
+        "groups": [G("corr_loc", "location", 2500, 15000), G("corr_norm", "norm", 1500, 40000), G("corr_sun", "sun_periods", 3000, 80000), G("corr_sun", "sun_events", 1500, 30000)],
         "unproved": ["period start < end within one solar day: see C06 (shared-declination theorem)"],
         "assumes": ["DateMono for the output zone (night_ordered)"],
     },
@@ -185,7 +185,7 @@ PROPS = {
             "Astral.C02.quartic_bounds", "Astral.C02.refraction_high", "Astral.C02.refraction_low",
             "Astral.C02.refraction_bounds", "Astral.C02.apparent_minus_true",
         ],
-        "groups": [G("corr_loc", "location", 800, 15000), G("corr_norm", "norm", 1500, 30000), G("corr_sun", "sun_angles", 4000, 150000), G("corr_sun", "sun_chain", 2800, 60000),
+        "groups": [G("corr_loc", "location", 2500, 15000), G("corr_norm", "norm", 1500, 30000), G("corr_sun", "sun_angles", 4000, 150000), G("corr_sun", "sun_chain", 2800, 60000),
                    G("corr_sun", "refraction", 2000, 40000), G("corr_julian", "julian", 1200, 20000)],
         "unproved": ["agreement with an independent almanac-grade ephemeris to 0.03° (0.26° at the poles)"],
         "assumes": ["IEEE rounding stays below the tolerances (bit-exact Float correspondence observed)"],
@@ -206,7 +206,7 @@ PROPS = {
             "Astral.C06.hourAngle_sign", "Astral.C06.event_order", "Astral.C06.wrap_is_one_day",
             "Astral.C06.zEff_lt", "Astral.C06.chain_gaps",
         ],
-        "groups": [G("corr_norm", "norm", 1000, 30000), G("corr_loc", "location", 800, 15000), G("corr_sun", "hour_angle", 3000, 60000), G("corr_sun", "transit", 2500, 60000),
+        "groups": [G("corr_norm", "norm", 1000, 30000), G("corr_loc", "location", 2500, 15000), G("corr_sun", "hour_angle", 3000, 60000), G("corr_sun", "transit", 2500, 60000),
                    G("corr_sun", "sun_events", 2500, 60000), G("corr_sun", "refraction", 1000, 20000)],
         "unproved": ["order of events computed with per-event declination (two-pass drift): the inputs of the drift are bounded — declination ≤ 0.46°/day (DeclStep.declination_step), equation of time ≤ 0.53 min/day (EoTStep.eqOfTime_step) — but turning them into a bound on the event times needs ∂H/∂δ, which is unbounded at the polar circles"],
         "assumes": ["shared declination and equation of time for one solar day",
@@ -252,7 +252,7 @@ PROPS = {
             "Astral.C20Total.alwaysVerdict_outcomes", "Astral.C20Total.sunrise_outcomes",
             "Astral.C20Total.sunset_outcomes",
         ],
-        "groups": [G("corr_norm", "norm", 1500, 30000), G("corr_loc", "location", 800, 15000), G("corr_sun", "hour_angle", 2500, 60000), G("corr_sun", "sun_events", 3500, 90000),
+        "groups": [G("corr_norm", "norm", 1500, 30000), G("corr_loc", "location", 2500, 15000), G("corr_sun", "hour_angle", 2500, 60000), G("corr_sun", "sun_events", 3500, 90000),
                    G("corr_sun", "transit", 1500, 40000)],
         "unproved": ["two-sided agreement with the ephemeris inside the 30-minute / 0.6° margins",
                      "that the verdict's side (noon zenith against the horizon's zenith) coincides with the "
@@ -277,7 +277,7 @@ PROPS = {
             "Astral.C10.feature_zero", "Astral.C10.feature_sign",
             "Astral.C10.feature_discontinuous_witness",
         ],
-        "groups": [G("corr_norm", "norm", 1000, 30000), G("corr_loc", "location", 800, 15000), G("corr_sun", "hour_angle", 3000, 60000), G("corr_sun", "transit", 3000, 80000),
+        "groups": [G("corr_norm", "norm", 1000, 30000), G("corr_loc", "location", 2500, 15000), G("corr_sun", "hour_angle", 3000, 60000), G("corr_sun", "transit", 3000, 80000),
                    G("corr_geo", "setters", 1500, 30000), G("corr_sun", "sun_events", 1500, 40000)],
         "unproved": ["monotonicity with refraction inside the 0.6° margin (false at the N2 kink)",
                      "continuity of the tuple form (false: KF-FEATURE)"],
@@ -310,7 +310,7 @@ PROPS = {
             "Astral.C05Noon.noon_total",
             "Astral.C05Noon.midnight_total",
         ],
-        "groups": [G("corr_loc", "location", 800, 15000), G("corr_norm", "norm", 1200, 30000), G("corr_sun", "sun_events", 4500, 100000), G("corr_sun", "sun_chain", 1400, 30000)],
+        "groups": [G("corr_loc", "location", 2500, 15000), G("corr_norm", "norm", 1200, 30000), G("corr_sun", "sun_events", 4500, 100000), G("corr_sun", "sun_chain", 1400, 30000)],
         "unproved": ["hour angle within 0.25° of 0 / 180 by an independent ephemeris",
                      ],
         "assumes": [],
@@ -329,7 +329,7 @@ PROPS = {
             "Astral.C08.angles_instant_only", "Astral.C08.elevation_instant_only",
             "Astral.C08.hourAngle_normalised",
         ],
-        "groups": [G("corr_loc", "location", 800, 15000), G("corr_norm", "norm", 1200, 30000), G("corr_sun", "sun_angles", 6000, 200000), G("corr_julian", "julian", 1200, 20000)],
+        "groups": [G("corr_loc", "location", 2500, 15000), G("corr_norm", "norm", 1200, 30000), G("corr_sun", "sun_angles", 6000, 200000), G("corr_julian", "julian", 1200, 20000)],
         "unproved": [],
         "assumes": ["whole-second datetimes"],
     },
@@ -350,7 +350,7 @@ PROPS = {
             "Astral.C11Float.phase_table", "Astral.C11Advance.elongation_eq",
             "Astral.C11Advance.Eraw_step", "Astral.C11Advance.phase_daily_advance",
         ],
-        "groups": [G("corr_norm", "norm", 1200, 30000), G("corr_loc", "location", 800, 15000), G("corr_moon", "moon_phase", 3000, 20000, bulk_quick=["phase_all_dates_bulk"],
+        "groups": [G("corr_norm", "norm", 1200, 30000), G("corr_loc", "location", 2500, 15000), G("corr_moon", "moon_phase", 3000, 20000, bulk_quick=["phase_all_dates_bulk"],
                      bulk_thorough=["phase_all_dates_bulk"]),
                    G("corr_julian", "julian", 1200, 20000)],
         "unproved": ["agreement with an independent lunar/solar elongation to 0.25"],
@@ -373,7 +373,7 @@ PROPS = {
             "Astral.C12.moon_elevation_range", "Astral.C12.moon_zenith_def",
             "Astral.C12.moon_azimuth_range", "Astral.C12.wrap_identity", "Astral.C12.moon_zenith_range",
         ],
-        "groups": [G("corr_norm", "norm", 1400, 30000), G("corr_loc", "location", 800, 15000), G("corr_moon", "moon_angles", 4000, 100000), G("corr_moon", "moon_position", 3000, 60000)],
+        "groups": [G("corr_norm", "norm", 1400, 30000), G("corr_loc", "location", 2500, 15000), G("corr_moon", "moon_angles", 4000, 100000), G("corr_moon", "moon_position", 3000, 60000)],
         "unproved": ["agreement with an independent lunar ephemeris to 0.05°"],
         "assumes": ["IEEE: the modulo can round to exactly 360.0 — handled by the code's final wrap"],
     },
@@ -390,7 +390,7 @@ PROPS = {
             "Astral.C13.quad_root_in_unit", "Astral.C13.interpolant_samples",
             "Astral.C13.event_time_fields", "Astral.C13.threshold_def",
         ],
-        "groups": [G("corr_loc", "location", 800, 15000), G("corr_norm", "norm", 1200, 30000), G("corr_moon", "moon_riseset", 3000, 60000), G("corr_moon", "moon_position", 1500, 30000)],
+        "groups": [G("corr_loc", "location", 2500, 15000), G("corr_norm", "norm", 1200, 30000), G("corr_moon", "moon_riseset", 3000, 60000), G("corr_moon", "moon_position", 1500, 30000)],
         "unproved": ["0.45° agreement of the crossing altitude", "hourly interpolation error"],
         "assumes": ["a ≠ 0 in the quadratic"],
     },
@@ -408,7 +408,7 @@ PROPS = {
             "Astral.C13.moonWrapper_outcomes", "Astral.C13.moonWrapper_complete", "Astral.C13.moon_choice",
             "Astral.C03.moonWrapper_on_date",
         ],
-        "groups": [G("corr_loc", "location", 800, 15000), G("corr_norm", "norm", 1200, 30000), G("corr_moon", "moon_riseset", 4000, 80000)],
+        "groups": [G("corr_loc", "location", 2500, 15000), G("corr_norm", "norm", 1200, 30000), G("corr_moon", "moon_riseset", 4000, 80000)],
         "unproved": ["every real crossing produces an hourly sign change (scan completeness, 8 minutes)"],
         "assumes": ["the scan does not raise"],
     },
@@ -470,7 +470,7 @@ PROPS = {
             "Astral.C09.dawn_same_offsets", "Astral.C09.sunrise_same_offsets",
             "Astral.C09.sunset_same_offsets", "Astral.C09.dusk_same_offsets", "Astral.C09.elevation_fold",
         ],
-        "groups": [G("corr_moon", "moon_riseset", 1500, 30000), G("corr_loc", "location", 800, 15000), G("corr_norm", "norm", 3500, 80000), G("corr_geo", "dms", 1500, 20000),
+        "groups": [G("corr_moon", "moon_riseset", 1500, 30000), G("corr_loc", "location", 2500, 15000), G("corr_norm", "norm", 3500, 80000), G("corr_geo", "dms", 1500, 20000),
                    G("corr_sun", "sun_events", 1500, 30000)],
         "unproved": [],
         "assumes": ["zoneinfo resolves a name to the zone the harness tabulated"],
